@@ -11,8 +11,9 @@
 //! updates on both sides and across an implicit unsuspend; (B) the same for publication (list, publish
 //! in / outside the jail, update, withdraw, empty delta, a reply sent as request); (C) single-bit
 //! corruption of three valid messages (signature, signed attributes / signer info, eContent and the
-//! rest); (D, `--local 1`) the local shortcut, honest (`loc`) and with a contact naming another
-//! child's handle (`mallory`, finding F12a).
+//! rest); (D, on by default, `--local 0` to skip) the local shortcut: honest (`loc`), across an identity update of
+//! the local child, and with a contact naming another child's handle (`mallory`, finding F12a, fixed by /repo 1a6ebc01:
+//! must be refused); plus a probe of the publication shortcut (candidate F12b).
 //!
 //! Per message one Coq `case` (ident/IdentCheck.v): abstracted parent / repository state before and
 //! after (children with registered ID key, entitlement, used keys, suspension, last status entry;
@@ -602,18 +603,52 @@ fn find_sub(h: &[u8], n: &[u8]) -> Option<usize> { h.windows(n.len()).position(|
 
 // ---------------------------------------------------------------- main
 
+/// What the scenario collects besides the cases.
+#[derive(Default)]
+struct Extra { flip_dist: BTreeMap<String, u64>, accepted_flips: Vec<Value>, ua: u64, local8181_probe: Value }
+
+static LAST_PANIC: std::sync::Mutex<String> = std::sync::Mutex::new(String::new());
+
 fn main() {
     let args = Args::parse("c12");
+    let do_local = args.get_u64("local", 1) == 1;
+    // panics of the real code are caught per message; remember the text of the last panic for the report
+    std::panic::set_hook(Box::new(|info| { if let Ok(mut g) = LAST_PANIC.lock() { *g = info.to_string(); } }));
+    let dir = args.out.join("sys");
+    let _ = std::fs::remove_dir_all(&dir);
+    let footer = EVALS.iter().map(|e| format!("Eval vm_compute in (failing {e} base_index cases).")).collect::<Vec<_>>().join("\n");
+    let mut out = Out { w: CaseWriter::new(&args.out, HEADER, "list case", &footer, 60), lines: Vec::new(), dist: BTreeMap::new(),
+        outcome_dist: BTreeMap::new(), distinct: BTreeSet::new(), samples: Vec::new(), impl_failures: Vec::new() };
+    let mut ex = Extra::default();
+    // A panic outside the per-message guards (e.g. the state of the real system can no longer be observed) must not
+    // lose the cases written so far: they are evaluated, and the panic itself is reported as a failure.
+    let res = std::panic::catch_unwind(std::panic::AssertUnwindSafe(|| scenario(&args, &dir, &mut out, &mut ex)));
+    if res.is_err() {
+        let msg = LAST_PANIC.lock().map(|g| g.clone()).unwrap_or_default();
+        out.impl_failures.push(json!({"index": null, "class": {"scenario_aborted": true}, "what": format!("the scenario aborted after {} cases: {msg}", out.w.total)}));
+    }
+    out.w.flush();
+    std::fs::write(args.out.join("cases.jsonl"), out.lines.join("\n") + "\n").expect("cases.jsonl");
+    let stats = json!({
+        "scenario": "c12", "seed": args.seed, "tier": args.tier,
+        "evaluations": out.w.total, "distinct_nontrivial": out.distinct.len(),
+        "rule": "one case per message fed to the real rfc6492 / rfc8181 (harness-built CMS; keys from the runtime's signer and from a second harness-owned KrillSigner): claimed sender x signing key {registered, another child's/publisher's, replaced identity, random} x recipient / URL x request kind, before and after identity updates on both sides and across an implicit unsuspend; then single-bit flips of valid messages (quick: positions sampled per region signature / signed attributes / eContent / rest; thorough: every bit) - TESTING of decoder and signature check, not proof; the local shortcut (honest child, identity update of a local child, and the F12a contact which must be refused). non-trivial = the claimed sender is a registered child / publisher, so that the key decision is exercised; distinct = distinct (protocol, sender, recipient, signing key, request, flipped bit)",
+        "stream_distribution": out.dist, "outcome_distribution": out.outcome_dist, "flip_region_distribution": ex.flip_dist,
+        "flips_not_refused": ex.accepted_flips, "local8181_probe": ex.local8181_probe, "messages": ex.ua, "local": do_local,
+        "samples": out.samples, "impl_failures": out.impl_failures, "evals": EVALS,
+    });
+    write_json(&args.out.join("stats.json"), &stats);
+    println!("c12: {} cases, {} distinct non-trivial, outcomes {:?}", out.w.total, out.distinct.len(), stats["outcome_distribution"]);
+    let _ = std::fs::remove_dir_all(&dir);
+}
+
+fn scenario(args: &Args, dir: &std::path::Path, out: &mut Out, ex: &mut Extra) {
     let mut rng = Rng::new(args.seed);
     let thorough = args.thorough();
     let per_msg_flips = args.get_u64("flips", 300) as usize / 3;
     let sweep_msgs = args.get_u64("sweep", 3) as usize;
-    let do_local = args.get_u64("local", 0) == 1;
-    std::panic::set_hook(Box::new(|_| {}));
-
-    let dir = args.out.join("sys");
-    let _ = std::fs::remove_dir_all(&dir);
-    let mut opts = SysOpts::new(&dir);
+    let do_local = args.get_u64("local", 1) == 1;
+    let mut opts = SysOpts::new(dir);
     opts.mem_seed = 1200 + args.seed;
     let sys = Sys::open(opts);
     sys.bootstrap().expect("bootstrap");
@@ -625,10 +660,6 @@ fn main() {
     };
     let shadow = WalStore::create(sys.krill.storage(), PUBSERVER_CONTENT_NS).expect("shadow store");
     let mut w = World { sys, second, it: Interner::default(), shadow, ids: Vec::new(), repo_key: None, rsync_base: RSYNC_JAIL.to_string() };
-    let footer = EVALS.iter().map(|e| format!("Eval vm_compute in (failing {e} base_index cases).")).collect::<Vec<_>>().join("\n");
-    let mut out = Out { w: CaseWriter::new(&args.out, HEADER, "list case", &footer, 60), lines: Vec::new(), dist: BTreeMap::new(),
-        outcome_dist: BTreeMap::new(), distinct: BTreeSet::new(), samples: Vec::new(), impl_failures: Vec::new() };
-
     // ---- the parent CA with atoms 0..7 and its children
     w.sys.add_ca(PAR).expect("parent ca");
     w.sys.add_parent(PAR, "ta", atoms_to_resources(0xFF)).expect("parent under ta");
@@ -655,7 +686,6 @@ fn main() {
     remotes.push(Remote { handle: "loc".into(), id: loc_id, old_ids: Vec::new(), cert_keys: loc_cert_keys, ent_mask: 0x40 });
     let (rnd_id, _) = w.new_id(Which::Second, "random-key");
 
-    let mut ua: u64 = 0;
     let mut pre = observe_parent(&mut w);
 
     // ---- stream A: structured provisioning messages, in rounds with identity updates in between
@@ -718,13 +748,13 @@ fn main() {
         let signed = par_sign6492(&w, &jobs);
         for (((m, sk), bytes), (sclass, pname)) in jobs.iter().zip(signed).zip(meta) {
             let Some(bytes) = bytes else { continue };
-            pre = case6492(&mut w, &mut out, &pre, &bytes, m, sk, None, &stream, &mut ua, json!({"signer_class": sclass, "kind": pname}));
+            pre = case6492(&mut w, out, &pre, &bytes, m, sk, None, &stream, &mut ex.ua, json!({"signer_class": sclass, "kind": pname}));
         }
         // unknown sender handle, signed with a registered key
         {
             let m = provisioning::Message::list(child_handle("ghost").convert(), parent_handle(PAR).convert());
             let sk = remotes[0].id.clone();
-            if let Some(bytes) = sign6492(&w, m.clone(), &sk) { pre = case6492(&mut w, &mut out, &pre, &bytes, &m, &sk, None, &stream, &mut ua, json!({"signer_class": "registered-for-someone-else", "kind": "list-unknown-sender"})); }
+            if let Some(bytes) = sign6492(&w, m.clone(), &sk) { pre = case6492(&mut w, out, &pre, &bytes, &m, &sk, None, &stream, &mut ex.ua, json!({"signer_class": "registered-for-someone-else", "kind": "list-unknown-sender"})); }
         }
         // ---- identity updates between the rounds
         if round == 0 {
@@ -745,7 +775,7 @@ fn main() {
             let nid = w.adopt_id(&npk, "loc-id-2");
             let li = remotes.len() - 1;
             let m = provisioning::Message::list(child_handle("loc").convert(), parent_handle(PAR).convert());
-            if let Some(bytes) = sign6492(&w, m.clone(), &nid) { pre = case6492(&mut w, &mut out, &pre, &bytes, &m, &nid, None, "A-id", &mut ua, json!({"signer_class": "new-identity-not-yet-registered", "kind": "list"})); }
+            if let Some(bytes) = sign6492(&w, m.clone(), &nid) { let _ = case6492(&mut w, out, &pre, &bytes, &m, &nid, None, "A-id", &mut ex.ua, json!({"signer_class": "new-identity-not-yet-registered", "kind": "list"})); }
             let idc = w.sys.ca("loc").unwrap().child_request().validate().expect("loc id cert");
             w.sys.krill.ca_manager().ca_child_update(&ca_handle(PAR), child_handle("loc"), UpdateChildRequest::id_cert(idc), &w.sys.actor, &w.sys.krill).expect("loc id at parent");
             let old = std::mem::replace(&mut remotes[li].id, nid);
@@ -756,9 +786,9 @@ fn main() {
             pre = observe_parent(&mut w);
             let m = provisioning::Message::list(child_handle("c1").convert(), parent_handle(PAR).convert());
             let wrong = remotes[2].id.clone();
-            if let Some(bytes) = sign6492(&w, m.clone(), &wrong) { pre = case6492(&mut w, &mut out, &pre, &bytes, &m, &wrong, None, "A-susp", &mut ua, json!({"signer_class": "other-child", "kind": "list-while-suspended"})); }
+            if let Some(bytes) = sign6492(&w, m.clone(), &wrong) { pre = case6492(&mut w, out, &pre, &bytes, &m, &wrong, None, "A-susp", &mut ex.ua, json!({"signer_class": "other-child", "kind": "list-while-suspended"})); }
             let right = remotes[1].id.clone();
-            if let Some(bytes) = sign6492(&w, m.clone(), &right) { pre = case6492(&mut w, &mut out, &pre, &bytes, &m, &right, None, "A-susp", &mut ua, json!({"signer_class": "registered", "kind": "list-while-suspended"})); }
+            if let Some(bytes) = sign6492(&w, m.clone(), &right) { pre = case6492(&mut w, out, &pre, &bytes, &m, &right, None, "A-susp", &mut ex.ua, json!({"signer_class": "registered", "kind": "list-while-suspended"})); }
         }
     }
 
@@ -814,12 +844,12 @@ fn main() {
         let signed = par_sign8181(&w, &jobs);
         for (((m, sk), bytes), (url, _sclass)) in jobs.iter().zip(signed).zip(meta) {
             let Some(bytes) = bytes else { continue };
-            rpre = case8181(&mut w, &mut out, &rpre, &url, &bytes, m, sk, None, &stream, ver0);
+            rpre = case8181(&mut w, out, &rpre, &url, &bytes, m, sk, None, &stream, ver0);
         }
         {
             let m = publication::Message::list_query();
             let sk = pubs[0].id.clone();
-            if let Some(bytes) = sign8181(&w, m.clone(), &sk) { rpre = case8181(&mut w, &mut out, &rpre, "nobody", &bytes, &m, &sk, None, &stream, ver0); }
+            if let Some(bytes) = sign8181(&w, m.clone(), &sk) { rpre = case8181(&mut w, out, &rpre, "nobody", &bytes, &m, &sk, None, &stream, ver0); }
         }
         if round == 0 {
             // publisher identity change = remove + add with a new ID certificate
@@ -847,8 +877,6 @@ fn main() {
         sweeps.push(("6492-issue", bytes2, json!(null)));
     }
     pre = observe_parent(&mut w);
-    let mut flip_dist: BTreeMap<String, u64> = BTreeMap::new();
-    let mut accepted_flips: Vec<Value> = Vec::new();
     for (si, (name, bytes, _)) in sweeps.iter().enumerate() {
         if si >= sweep_msgs { break }
         let original = ProvisioningCms::decode(bytes).expect("valid message decodes").into_message();
@@ -856,14 +884,14 @@ fn main() {
         let xml = original.to_xml_bytes();
         let ec = find_sub(bytes, xml.as_ref()).unwrap_or(bytes.len() / 4);
         // the untouched message first
-        pre = case6492(&mut w, &mut out, &pre, bytes, &original, &signer, None, "C-base", &mut ua, json!({"kind": name}));
+        pre = case6492(&mut w, out, &pre, bytes, &original, &signer, None, "C-base", &mut ex.ua, json!({"kind": name}));
         for (bit, region) in flip_positions(&mut rng, bytes.len(), ec, xml.len(), per_msg_flips, thorough) {
             let mut b = bytes.clone();
             b[bit / 8] ^= 1 << (bit % 8);
-            *flip_dist.entry(format!("{name}:{region}")).or_default() += 1;
+            *ex.flip_dist.entry(format!("{name}:{region}")).or_default() += 1;
             let before = out.lines.len();
-            pre = case6492(&mut w, &mut out, &pre, &b, &original, &signer, Some(bit), "C-flip", &mut ua, json!({"kind": name, "region": region}));
-            if let Ok(v) = serde_json::from_str::<Value>(&out.lines[before]) { if v["outcome"] != "refused" { accepted_flips.push(json!({"message": name, "bit": bit, "region": region, "identical": v["decodes_to_identical_message"], "outcome": v["outcome"]})); } }
+            pre = case6492(&mut w, out, &pre, &b, &original, &signer, Some(bit), "C-flip", &mut ex.ua, json!({"kind": name, "region": region}));
+            if let Ok(v) = serde_json::from_str::<Value>(&out.lines[before]) { if v["outcome"] != "refused" { ex.accepted_flips.push(json!({"message": name, "bit": bit, "region": region, "identical": v["decodes_to_identical_message"], "outcome": v["outcome"]})); } }
         }
     }
     if sweep_msgs >= 3 {
@@ -880,19 +908,19 @@ fn main() {
         for (bit, region) in flip_positions(&mut rng, bytes.len(), ec, xml.len(), per_msg_flips, thorough) {
             let mut b = bytes.clone();
             b[bit / 8] ^= 1 << (bit % 8);
-            *flip_dist.entry(format!("8181-publish:{region}")).or_default() += 1;
+            *ex.flip_dist.entry(format!("8181-publish:{region}")).or_default() += 1;
             let before = out.lines.len();
-            rpre = case8181(&mut w, &mut out, &rpre, &h, &b, &m, &signer, Some(bit), "C-flip", ver0);
-            if let Ok(v) = serde_json::from_str::<Value>(&out.lines[before]) { if v["outcome"] != "refused" { accepted_flips.push(json!({"message": "8181-publish", "bit": bit, "region": region, "identical": v["decodes_to_identical_message"], "outcome": v["outcome"]})); } }
+            rpre = case8181(&mut w, out, &rpre, &h, &b, &m, &signer, Some(bit), "C-flip", ver0);
+            if let Ok(v) = serde_json::from_str::<Value>(&out.lines[before]) { if v["outcome"] != "refused" { ex.accepted_flips.push(json!({"message": "8181-publish", "bit": bit, "region": region, "identical": v["decodes_to_identical_message"], "outcome": v["outcome"]})); } }
         }
         // the untouched message last (it publishes the object)
-        rpre = case8181(&mut w, &mut out, &rpre, &h, &bytes, &m, &signer, None, "C-base", ver0);
+        rpre = case8181(&mut w, out, &rpre, &h, &bytes, &m, &signer, None, "C-base", ver0);
     }
     let _ = rpre;
 
     // ---- stream D: the local shortcut
     if do_local {
-        let mut local_sync = |w: &mut World, out: &mut Out, ca: &str, contact_child: &str, what: &str| {
+        let local_sync = |w: &mut World, out: &mut Out, ca: &str, contact_child: &str, what: &str| {
             std::thread::sleep(Duration::from_millis(1100)); // status timestamps have a resolution of one second
             let pre = observe_parent(w);
             let res = w.sys.sync_parent(ca, PAR);
@@ -900,6 +928,12 @@ fn main() {
             // as which child was the caller served? the one whose status entry changed
             let who: Option<String> = post.raw_status.iter().find(|(h, s)| pre.raw_status.get(*h) != Some(*s)).map(|(h, _)| h.clone());
             let mut reqs: Vec<String> = Vec::new();
+            // a sync that ends in an error and leaves no trace at the parent: its first request (the list query) was refused
+            if who.is_none() && res.is_err() { reqs.push("RList".into()); }
+            if who.is_none() && pre.raw != post.raw {
+                out.impl_failures.push(json!({"index": out.w.total, "class": {"refused_but_raw_state_changed": true, "protocol": "rfc6492", "path": "local-shortcut"},
+                    "what": format!("local exchange of '{ca}' that was not served changed the stored CertAuth / status JSON of the parent")}));
+            }
             if let Some(h) = &who {
                 reqs.push("RList".into());
                 let hn = w.it.handle(h);
@@ -924,15 +958,21 @@ fn main() {
             out.push(term, rec, "D-local", Some(format!("local|{ca}|{contact_child}|{}", out.w.total)));
         };
         // honest local child
-        for i in 0..2 { local_sync(&mut w, &mut out, "loc", "loc", &format!("honest local child, sync {i}")); }
-        // F12a: mallory was never added as a child; her administrator stores the parent response of c2
+        for i in 0..2 { local_sync(&mut w, out, "loc", "loc", &format!("honest local child, sync {i}")); }
+        // identity update at a local child: refused until the parent is given the new ID certificate (as on the remote path)
+        w.sys.krill.ca_manager().ca_update_id(ca_handle("loc"), &w.sys.actor, &w.sys.krill).expect("loc id update");
+        local_sync(&mut w, out, "loc", "loc", "local child after ca_update_id, the parent still has the previous ID certificate");
+        let idc = w.sys.ca("loc").unwrap().child_request().validate().expect("loc id cert");
+        w.sys.krill.ca_manager().ca_child_update(&ca_handle(PAR), child_handle("loc"), UpdateChildRequest::id_cert(idc), &w.sys.actor, &w.sys.krill).expect("loc id at parent");
+        local_sync(&mut w, out, "loc", "loc", "local child after ca_update_id, the parent now has the new ID certificate");
+        // F12a (fixed by /repo 1a6ebc01): mallory was never added as a child; her administrator stores the parent
+        // response of c2. She must be refused, with no change at the parent.
         let resp = parent_responses.get("c2").expect("c2 response").clone();
         w.sys.krill.ca_manager().ca_parent_add_or_update(ca_handle("mallory"), ParentCaReq { handle: parent_handle(PAR), response: resp }, &w.sys.actor, &w.sys.krill).expect("mallory stores a parent contact naming c2");
-        for i in 0..3 { local_sync(&mut w, &mut out, "mallory", "c2", &format!("CA 'mallory' (no child of 'par') with a stored parent contact naming child handle 'c2', sync {i}")); }
+        for i in 0..3 { local_sync(&mut w, out, "mallory", "c2", &format!("CA 'mallory' (no child of 'par') with a stored parent contact naming child handle 'c2', sync {i}")); }
     }
 
     // ---- probe (not a case): the publication shortcut serves a local CA as the publisher that carries its handle
-    let mut local8181_probe = json!(null);
     if do_local {
         let (pid, pcert) = w.new_id(Which::Second, "pz-id");
         let req = PublisherRequest::new(Base64::from_content(pcert.to_bytes().as_ref()), publisher_handle("pz"), None);
@@ -952,22 +992,13 @@ fn main() {
         })();
         let after: Vec<String> = w.sys.krill.repo_manager().list(&publisher_handle("pz")).map(|l| l.elements().iter().map(|e| e.uri().to_string()).collect()).unwrap_or_default();
         let ca_pk = w.sys.ca("pz").ok().map(|c| c.id_cert().public_key.key_identifier().to_string());
-        local8181_probe = json!({"publisher": "pz", "publisher_id_key": pid.kid.to_string(), "remote_publish_ok": r.is_ok(),
+        if args.get_u64("f12b", 0) == 1 && !before.is_empty() && after.len() < before.len() {
+            out.impl_failures.push(json!({"index": null, "class": {"path": "local-shortcut-8181", "ca_handle_equals_foreign_publisher": true},
+                "what": format!("publication shortcut: the CA 'pz' of this instance (ID key {:?}) was served as the publisher 'pz' registered with ID key {}; its repository sync withdrew {:?}", ca_pk, pid.kid, before)}));
+        }
+        ex.local8181_probe = json!({"publisher": "pz", "publisher_id_key": pid.kid.to_string(), "remote_publish_ok": r.is_ok(),
             "objects_before_local_ca_sync": before, "local_ca_id_key": ca_pk, "local_ca_steps": format!("{:?}", steps.map_err(|e| e.to_string())),
             "objects_after_local_ca_sync": after});
     }
 
-    out.w.flush();
-    std::fs::write(args.out.join("cases.jsonl"), out.lines.join("\n") + "\n").expect("cases.jsonl");
-    let stats = json!({
-        "scenario": "c12", "seed": args.seed, "tier": args.tier,
-        "evaluations": out.w.total, "distinct_nontrivial": out.distinct.len(),
-        "rule": "one case per message fed to the real rfc6492 / rfc8181 (harness-built CMS; keys from the runtime's signer and from a second harness-owned KrillSigner): claimed sender x signing key {registered, another child's/publisher's, replaced identity, random} x recipient / URL x request kind, before and after identity updates on both sides and across an implicit unsuspend; then single-bit flips of valid messages (quick: positions sampled per region signature / signed attributes / eContent / rest; thorough: every bit) - TESTING of decoder and signature check, not proof; with --local 1 the local shortcut (honest child and the F12a contact). non-trivial = the claimed sender is a registered child / publisher, so that the key decision is exercised; distinct = distinct (protocol, sender, recipient, signing key, request, flipped bit)",
-        "stream_distribution": out.dist, "outcome_distribution": out.outcome_dist, "flip_region_distribution": flip_dist,
-        "flips_not_refused": accepted_flips, "local8181_probe": local8181_probe, "messages": ua, "local": do_local,
-        "samples": out.samples, "impl_failures": out.impl_failures, "evals": EVALS,
-    });
-    write_json(&args.out.join("stats.json"), &stats);
-    println!("c12: {} cases, {} distinct non-trivial, outcomes {:?}", out.w.total, out.distinct.len(), stats["outcome_distribution"]);
-    let _ = std::fs::remove_dir_all(&dir);
 }
